@@ -164,6 +164,15 @@ def one_input(ctx, spec, work, tag):
                     paths.append(vcfgen.materialise(pspec, pathlib.Path(work) / f"{tag}_part{names[i]}", kind, records=recs,
                                                     block_size=rng.choice([300, 0xFF00])))
                 inp_s = {**inp, "pieces": [len(p) for p in pieces], "own_header_lines": own_headers}
+                # Model/Split: the store's record order for these pieces (each piece inside one contig: one sort key per piece)
+                model_order = None
+                if ctx.driver_ok and all(len({r["contig"] for r in recs}) == 1 for recs in pieces):
+                    ids = {id(r): t for t, r in enumerate(spec["records"])}
+                    mp = [[[r["contig"], r["pos"], ids[id(r)]] for r in recs] for recs in pieces]
+                    rng.shuffle(mp)
+                    tags = ctx.driver.ask({"op": "split.store", "pieces": mp})["tags"]
+                    model_order = [(spec["records"][t]["contig"], spec["records"][t]["pos"]) for t in tags]
+                    ctx.count("split_model_orders")
                 seen = []
                 for rnd in range(3):
                     order = list(paths)
@@ -179,6 +188,12 @@ def one_input(ctx, spec, work, tag):
                     vcf2zarr.encode(icf, out, worker_processes=0)
                     compare(ctx, ref, ref_hashes, out, inp_s, f"input split into {len(paths)} files passed in shuffled order",
                             ignore_header=own_headers)
+                    if model_order is not None:
+                        got_s = vczspec.read_store(out)[0]
+                        real_order = list(zip(got_s["variant_contig"]["data"], got_s["variant_position"]["data"]))
+                        if real_order != model_order:
+                            ctx.disagree("record order of the store built from split files differs from Model.Split.storeRecords",
+                                         inp_s, model_order[:10], real_order[:10])
                     seen.append((order, vczspec.read_store(out)[1], convlib.file_hashes(out)))
                     ctx.count("split_orders")
                 for order, attrs, hashes in seen[1:]:
